@@ -265,7 +265,7 @@ func c17NameOracle(in string) eng.Res {
 func init() {
 	eng.Register(&eng.Check{
 		ID: "C17", Level: "exploration", HangBound: 900 * time.Second,
-		QuickBudget: 170 * time.Second, ThoroughBudget: 24 * time.Minute,
+		QuickBudget: 240 * time.Second, ThoroughBudget: 24 * time.Minute,
 		Pre: u.WriteCorpusCache,
 		Rule: "every program of <=k statements over the layout fragment FL (leaves, 24 shapes, containers depth<=3, 16 connection forms, 4 directions, 8 constant nears, grids, sequence diagrams, label/icon positions, 3d/multiple/stroke/size styles, special names, boards) laid out through d2lib.Compile with dagre and with ELK, plus a name family (every object name of <=2 symbols over a 39-symbol alphabet in the forms N, N -> b, c: {N}) and every compilable .d2 file of the repository; non-trivial = the diagram compiles, the engine supports its features and it has at least one object; outcome = multiset of laid-out boxes and route lengths",
 		Assumptions: []string{
@@ -310,8 +310,9 @@ func init() {
 				})
 			}
 			if !w.Thorough() {
-				chunked(w, "FLcore=2:dagre", 6, func(emit func(string, string)) {
-					forPrograms("", core, 2, func(src string) { emit("layout", mkIn("dagre", src)) })
+				core2 := append(append([]string{}, core[:45]...), core[len(core)-2:]...) // without the label/icon/style tail (kept at depth 1)
+				chunked(w, "FLcore'=2:dagre", 6, func(emit func(string, string)) {
+					forPrograms("", core2, 2, func(src string) { emit("layout", mkIn("dagre", src)) })
 				})
 				chunked(w, "FLsmall[:20]=2:elk", 6, func(emit func(string, string)) {
 					forPrograms("", small[:20], 2, func(src string) { emit("layout", mkIn("elk", src)) })
@@ -348,7 +349,7 @@ func init() {
 func corpusFiles() []string {
 	var out []string
 	for _, s := range u.Corpus() {
-		if len(s) > 3000 || !strings.Contains(s, "\n") {
+		if len(s) > 2000 || !strings.Contains(s, "\n") {
 			continue
 		}
 		if strings.Contains(s, "@") || strings.Contains(s, "...") { // imports need a file system
